@@ -4,6 +4,7 @@ import (
 	"fmt"
 	"go/token"
 	"go/types"
+	"math/big"
 	"path/filepath"
 	"strconv"
 	"strings"
@@ -38,13 +39,13 @@ func bigOf(m *Machine, v Val) *Cell {
 	return p.C
 }
 
-func bigT(m *Machine, v Val) string {
+func bigV(m *Machine, v Val) Big {
 	c := bigOf(m, v)
 	b, ok := c.V.(Big)
 	if !ok {
 		m.incon("big.Int cell holds " + fmt.Sprintf("%T", c.V))
 	}
-	return b.T
+	return b
 }
 
 func (m *Machine) newBig(t string) Val { return Ptr{C: m.newCell(Big{T: t})} }
@@ -279,6 +280,10 @@ func init() {
 		vrt + "BytesToToken": func(m *Machine, a []Val) Val {
 			return m.bytesToStr(a[0].(Slice))
 		},
+		vrt + "BytesEqual": func(m *Machine, a []Val) Val { return m.bytesEqual(a[0].(Slice), a[1].(Slice)) },
+		vrt + "And":     func(m *Machine, a []Val) Val { return And(a[0].(Bool), a[1].(Bool)) },
+		vrt + "Or":      func(m *Machine, a []Val) Val { return Or(a[0].(Bool), a[1].(Bool)) },
+		vrt + "Implies": func(m *Machine, a []Val) Val { return Or(Not(a[0].(Bool)), a[1].(Bool)) },
 		vrt + "Note": func(m *Machine, a []Val) Val { return nil },
 		vrt + "CheckAlloc": func(m *Machine, a []Val) Val { return nil },
 
@@ -294,74 +299,129 @@ func init() {
 		},
 		"opaqueError.Error": func(m *Machine, a []Val) Val { return Str{C: "<error>"} },
 
-		// ---- math/big (BV128) ----
+		// ---- math/big (BV128, constant-folded) ----
 		"math/big.NewInt": func(m *Machine, a []Val) Val {
-			return m.newBig(m.resize(a[0].(Int), 128, true).T())
+			x := a[0].(Int)
+			if x.IsC() {
+				return Ptr{C: m.newCell(Big{V: big.NewInt(x.Signed())})}
+			}
+			return m.newBig(m.resize(x, 128, true).T())
 		},
 		"(*math/big.Int).SetUint64": func(m *Machine, a []Val) Val {
-			bigOf(m, a[0]).V = Big{T: m.resize(a[1].(Int), 128, false).T()}
+			x := a[1].(Int)
+			if x.IsC() {
+				bigOf(m, a[0]).V = Big{V: new(big.Int).SetUint64(x.C)}
+			} else {
+				bigOf(m, a[0]).V = Big{T: m.resize(x, 128, false).T()}
+			}
 			return a[0]
 		},
 		"(*math/big.Int).SetInt64": func(m *Machine, a []Val) Val {
-			bigOf(m, a[0]).V = Big{T: m.resize(a[1].(Int), 128, true).T()}
+			x := a[1].(Int)
+			if x.IsC() {
+				bigOf(m, a[0]).V = Big{V: big.NewInt(x.Signed())}
+			} else {
+				bigOf(m, a[0]).V = Big{T: m.resize(x, 128, true).T()}
+			}
 			return a[0]
 		},
 		"(*math/big.Int).Set": func(m *Machine, a []Val) Val {
-			bigOf(m, a[0]).V = Big{T: bigT(m, a[1])}
+			bigOf(m, a[0]).V = bigV(m, a[1])
 			return a[0]
 		},
 		"(*math/big.Int).SetBytes": func(m *Machine, a []Val) Val {
 			s := a[1].(Slice)
-			acc := bigZero
 			ln := m.concretizeSmall(s.Len)
-			if ln.IsC() {
-				if ln.C > 15 {
-					m.incon("big.SetBytes > 15 bytes")
-				}
-				for i := uint64(0); i < ln.C; i++ {
-					b := m.baSel(s.B, m.add(s.Off, CI(64, i))).T()
-					acc = "(concat ((_ extract 119 0) " + acc + ") " + b + ")"
-				}
-			} else {
+			if !ln.IsC() {
 				m.incon("big.SetBytes with large symbolic length")
 			}
-			bigOf(m, a[0]).V = Big{T: m.ex.Name("big", "(_ BitVec 128)", acc)}
+			if ln.C > 15 {
+				m.incon("big.SetBytes > 15 bytes")
+			}
+			acc := bigZero
+			allC := true
+			cv := new(big.Int)
+			for i := uint64(0); i < ln.C; i++ {
+				b := m.baSel(s.B, m.add(s.Off, CI(64, i)))
+				if b.IsC() {
+					cv.Lsh(cv, 8)
+					cv.Or(cv, big.NewInt(int64(b.C)))
+				} else {
+					allC = false
+				}
+				acc = "(concat ((_ extract 119 0) " + acc + ") " + b.T() + ")"
+			}
+			if allC {
+				bigOf(m, a[0]).V = Big{V: cv}
+			} else {
+				bigOf(m, a[0]).V = Big{T: m.ex.Name("big", "(_ BitVec 128)", acc)}
+			}
 			return a[0]
 		},
 		"(*math/big.Int).Add": func(m *Machine, a []Val) Val {
-			x, y := bigT(m, a[1]), bigT(m, a[2])
-			bigOf(m, a[0]).V = Big{T: "(bvadd " + x + " " + y + ")"}
+			x, y := bigV(m, a[1]), bigV(m, a[2])
+			if x.V != nil && y.V != nil {
+				bigOf(m, a[0]).V = Big{V: new(big.Int).Add(x.V, y.V)}
+			} else {
+				bigOf(m, a[0]).V = Big{T: "(bvadd " + x.Term() + " " + y.Term() + ")"}
+			}
 			return a[0]
 		},
 		"(*math/big.Int).Sub": func(m *Machine, a []Val) Val {
-			x, y := bigT(m, a[1]), bigT(m, a[2])
-			bigOf(m, a[0]).V = Big{T: "(bvsub " + x + " " + y + ")"}
+			x, y := bigV(m, a[1]), bigV(m, a[2])
+			if x.V != nil && y.V != nil {
+				bigOf(m, a[0]).V = Big{V: new(big.Int).Sub(x.V, y.V)}
+			} else {
+				bigOf(m, a[0]).V = Big{T: "(bvsub " + x.Term() + " " + y.Term() + ")"}
+			}
 			return a[0]
 		},
 		"(*math/big.Int).Int64": func(m *Machine, a []Val) Val {
-			return Int{W: 64, S: m.ex.Name("i64", "(_ BitVec 64)", "((_ extract 63 0) "+bigT(m, a[0])+")")}
+			x := bigV(m, a[0])
+			if x.V != nil {
+				return CI(64, new(big.Int).And(x.V, new(big.Int).SetUint64(^uint64(0))).Uint64())
+			}
+			return Int{W: 64, S: m.ex.Name("i64", "(_ BitVec 64)", "((_ extract 63 0) "+x.T+")")}
 		},
 		"(*math/big.Int).Uint64": func(m *Machine, a []Val) Val {
-			return Int{W: 64, S: "((_ extract 63 0) " + bigT(m, a[0]) + ")"}
+			x := bigV(m, a[0])
+			if x.V != nil {
+				return CI(64, new(big.Int).And(x.V, new(big.Int).SetUint64(^uint64(0))).Uint64())
+			}
+			return Int{W: 64, S: "((_ extract 63 0) " + x.T + ")"}
 		},
 		"(*math/big.Int).IsInt64": func(m *Machine, a []Val) Val {
-			x := bigT(m, a[0])
-			return Bool{S: "(= " + x + " ((_ sign_extend 64) ((_ extract 63 0) " + x + ")))"}
+			x := bigV(m, a[0])
+			if x.V != nil {
+				return CB(x.V.IsInt64())
+			}
+			return Bool{S: "(= " + x.T + " ((_ sign_extend 64) ((_ extract 63 0) " + x.T + ")))"}
 		},
 		"(*math/big.Int).Sign": func(m *Machine, a []Val) Val {
-			x := bigT(m, a[0])
-			return Int{W: 64, S: "(ite (bvslt " + x + " " + bigZero + ") (_ bv18446744073709551615 64) (ite (= " + x + " " + bigZero + ") (_ bv0 64) (_ bv1 64)))"}
+			x := bigV(m, a[0])
+			if x.V != nil {
+				return CI(64, uint64(int64(x.V.Sign())))
+			}
+			return Int{W: 64, S: "(ite (bvslt " + x.T + " " + bigZero + ") (_ bv18446744073709551615 64) (ite (= " + x.T + " " + bigZero + ") (_ bv0 64) (_ bv1 64)))"}
 		},
 		"(*math/big.Int).Cmp": func(m *Machine, a []Val) Val {
-			x, y := bigT(m, a[0]), bigT(m, a[1])
-			return Int{W: 64, S: "(ite (bvslt " + x + " " + y + ") (_ bv18446744073709551615 64) (ite (= " + x + " " + y + ") (_ bv0 64) (_ bv1 64)))"}
+			x, y := bigV(m, a[0]), bigV(m, a[1])
+			if x.V != nil && y.V != nil {
+				return CI(64, uint64(int64(x.V.Cmp(y.V))))
+			}
+			xt, yt := x.Term(), y.Term()
+			return Int{W: 64, S: "(ite (bvslt " + xt + " " + yt + ") (_ bv18446744073709551615 64) (ite (= " + xt + " " + yt + ") (_ bv0 64) (_ bv1 64)))"}
 		},
 		"(*math/big.Int).String": func(m *Machine, a []Val) Val {
 			p := a[0].(Ptr)
 			if p.C == nil {
 				return Str{C: "<nil>"}
 			}
-			return m.ufBig(bigT(m, a[0]))
+			x := bigV(m, a[0])
+			if x.V != nil {
+				return Str{C: x.V.String()}
+			}
+			return m.ufBig(x.T)
 		},
 
 		// ---- sync ----
@@ -661,6 +721,19 @@ func init() {
 }
 
 func (m *Machine) bytesEqual(x, y Slice) Bool {
+	if x.B == nil || y.B == nil {
+		xe := x.B == nil && (x.Len.IsC() && x.Len.C == 0)
+		ye := y.B == nil && (y.Len.IsC() && y.Len.C == 0)
+		if xe && ye {
+			return CB(true)
+		}
+		if xe {
+			return m.intBin(token.EQL, y.Len, CI(64, 0), true).(Bool)
+		}
+		if ye {
+			return m.intBin(token.EQL, x.Len, CI(64, 0), true).(Bool)
+		}
+	}
 	xl, yl := m.concretizeSmall(x.Len), m.concretizeSmall(y.Len)
 	if !xl.IsC() || !yl.IsC() {
 		m.incon("bytes.Equal with large symbolic lengths")
